@@ -100,6 +100,11 @@ def gv1(a, *rest):
     return (a,) + rest
 
 
+def sv(a):
+    _w("F sv " + enc((a,)))
+    return (a,)
+
+
 def note(tag):
     _w("V " + tag)
     return "vmod:" + tag
@@ -119,3 +124,8 @@ def bump():
 # other package of the same program has filled the shared binding before
 for _i in range(16):
     globals()["who%02d" % _i] = who
+
+
+# C19 call-site cases: sv00 .. sv15 are sv; each is called from one kind of place only
+for _i in range(16):
+    globals()["sv%02d" % _i] = sv
